@@ -130,17 +130,52 @@ func init() {
 		if len(ifs) != 2 {
 			return "", fmt.Errorf("processHints: expected two if statements, found %d", len(ifs))
 		}
-		if c := promPrintNode(fset, ifs[0].Cond); c != `instantVectors[hints.Func] || hints.Func == ""` {
-			return "", fmt.Errorf("processHints: first condition is %q", c)
+		// the per-step aggregation: two recognised shapes. "bucket-end" (as it was written): every instant-vector function,
+		// the last sample of a step bucket re-timed to the bucket end; "sample" (after `fix: a stepped range query hands the
+		// engine the last sample of every step bucket with its own time …`): only for an instant selector (Range == 0) and a
+		// step that divides the engine's lookback delta, the last sample of a step bucket with its own time
+		bucketTime, lookbackMs := "", int64(0)
+		cond0 := promPrintNode(fset, ifs[0].Cond)
+		body0 := stripComments(promPrintNode(fset, ifs[0].Body))
+		const wantBucketEnd = `{ withQuery := sql.NewWith(query, "spls") query = sql.NewSelect().With(withQuery).Select( sql.NewRawObject("fingerprint"), sql.NewSimpleCol("argMax(spls.value, spls.timestamp_ms)", "value"), sql.NewSimpleCol(fmt.Sprintf("intDiv(spls.timestamp_ms - %d + %d - 1, %d) * %d + %d", hints.Start, hints.Step, hints.Step, hints.Step, hints.Start), "timestamp_ms"), ).From( sql.NewWithRef(withQuery), ).GroupBy( sql.NewRawObject("timestamp_ms"), sql.NewRawObject("fingerprint"), ).OrderBy( sql.NewOrderBy(sql.NewRawObject("fingerprint"), sql.ORDER_BY_DIRECTION_ASC), sql.NewOrderBy(sql.NewRawObject("timestamp_ms"), sql.ORDER_BY_DIRECTION_ASC), ) }`
+		const wantSample = `{ withQuery := sql.NewWith(query, "spls") query = sql.NewSelect().With(withQuery).Select( sql.NewRawObject("fingerprint"), sql.NewSimpleCol("argMax(spls.value, spls.timestamp_ms)", "value"), sql.NewSimpleCol("max(spls.timestamp_ms)", "last_ms"), ).From( sql.NewWithRef(withQuery), ).GroupBy( sql.NewRawObject(fmt.Sprintf("intDiv(spls.timestamp_ms - %d + %d - 1, %d)", hints.Start, hints.Step, hints.Step)), sql.NewRawObject("fingerprint"), ).OrderBy( sql.NewOrderBy(sql.NewRawObject("fingerprint"), sql.ORDER_BY_DIRECTION_ASC), sql.NewOrderBy(sql.NewRawObject("last_ms"), sql.ORDER_BY_DIRECTION_ASC), ) }`
+		switch {
+		case cond0 == `instantVectors[hints.Func] || hints.Func == ""` && body0 == wantBucketEnd:
+			bucketTime = "bucket-end"
+		case cond0 == `(instantVectors[hints.Func] || hints.Func == "") && hints.Range == 0 && lookbackDeltaMs%hints.Step == 0` && body0 == wantSample:
+			bucketTime = "sample"
+			found := false
+			for _, d := range f.Decls {
+				gd, ok := d.(*ast.GenDecl)
+				if !ok || gd.Tok != token.CONST {
+					continue
+				}
+				for _, sp := range gd.Specs {
+					vs := sp.(*ast.ValueSpec)
+					if len(vs.Names) == 1 && vs.Names[0].Name == "lookbackDeltaMs" && len(vs.Values) == 1 {
+						if promPrintNode(fset, vs.Values[0]) != "5 * 60 * 1000" {
+							return "", fmt.Errorf("lookbackDeltaMs = %s: not the recognised constant", promPrintNode(fset, vs.Values[0]))
+						}
+						lookbackMs, found = 5*60*1000, true
+					}
+				}
+			}
+			if !found {
+				return "", fmt.Errorf("const lookbackDeltaMs not found")
+			}
+		default:
+			return "", fmt.Errorf("processHints: the per-step aggregation (condition %q) is not a recognised shape: %s", cond0, body0)
 		}
-		if c := promPrintNode(fset, ifs[1].Cond); c != `rangeVectors[hints.Func] && hints.Step > hints.Range` {
-			return "", fmt.Errorf("processHints: second condition is %q", c)
-		}
-		// the per-step aggregation
-		body0 := promPrintNode(fset, ifs[0].Body)
-		wantBucket := `{ withQuery := sql.NewWith(query, "spls") query = sql.NewSelect().With(withQuery).Select( sql.NewRawObject("fingerprint"), sql.NewSimpleCol("argMax(spls.value, spls.timestamp_ms)", "value"), sql.NewSimpleCol(fmt.Sprintf("intDiv(spls.timestamp_ms - %d + %d - 1, %d) * %d + %d", hints.Start, hints.Step, hints.Step, hints.Step, hints.Start), "timestamp_ms"), ).From( sql.NewWithRef(withQuery), ).GroupBy( sql.NewRawObject("timestamp_ms"), sql.NewRawObject("fingerprint"), ).OrderBy( sql.NewOrderBy(sql.NewRawObject("fingerprint"), sql.ORDER_BY_DIRECTION_ASC), sql.NewOrderBy(sql.NewRawObject("timestamp_ms"), sql.ORDER_BY_DIRECTION_ASC), ) }`
-		if stripComments(body0) != wantBucket {
-			return "", fmt.Errorf("processHints: the per-step aggregation is not the recognised query: %s", body0)
+		// the guard of the range filter: with or without `hints.Range > 0` (an instant selector under a sub-query of a
+		// range-vector function has Range == 0)
+		rangeGuard := ""
+		switch promPrintNode(fset, ifs[1].Cond) {
+		case `rangeVectors[hints.Func] && hints.Step > hints.Range`:
+			rangeGuard = "none"
+		case `rangeVectors[hints.Func] && hints.Range > 0 && hints.Step > hints.Range`:
+			rangeGuard = "range-selector"
+		default:
+			return "", fmt.Errorf("processHints: second condition is %q", promPrintNode(fset, ifs[1].Cond))
 		}
 		// the range-window filter: two recognised shapes
 		body1 := stripComments(promPrintNode(fset, ifs[1].Body))
@@ -296,6 +331,10 @@ func init() {
 		fmt.Fprintf(&b, "def rangeFuncs : List String := %s\n", leanStrList(rangeFns))
 		b.WriteString("/-- processHints: shape of the range filter: \"windows\" = (timestamp_ms − Start) % Step <= Range; \"modstep\" = timestamp_ms % Step == 0 or >= Step − Range -/\n")
 		fmt.Fprintf(&b, "def rangeFilter : String := %s\n", leanStr(filterKind))
+		b.WriteString("/-- processHints: the range filter is applied to \"range-selector\" = hints.Range > 0 only, or \"none\" = whenever Step > Range (the code as it was written: also to the instant selector of a sub-query) -/\n")
+		fmt.Fprintf(&b, "def rangeGuard : String := %s\n", leanStr(rangeGuard))
+		b.WriteString("/-- processHints: the per-step aggregation sends the last sample of a step bucket \"sample\" = with its own time, only for an instant selector and a step dividing lookbackMs; \"bucket-end\" = moved to the end of the bucket, for every step (the code as it was written) -/\n")
+		fmt.Fprintf(&b, "def bucketTime : String := %s\ndef lookbackMs : Int := %d\n", leanStr(bucketTime), lookbackMs)
 		b.WriteString("/-- promQueryable.go supportedFunctions (name ↦ value) and the routing threshold in ms -/\n")
 		b.WriteString("def supportedFuncs : List (String × Bool) := [")
 		for i, p := range skv {
